@@ -277,3 +277,18 @@ func Make(name, data string) Field {
 		ValueOf(data),
 	}
 }
+
+// GetExact returns the field stored under exactly this name, or ZeroField.
+// Unlike Get it does not resolve "a.b" as a path into a JSON field "a".
+func (fields List) GetExact(name string) Field {
+	found := ZeroField
+	fields.Scan(func(f Field) bool {
+		if f.Name() == name {
+			found = f
+			return false
+		}
+		// the list is sorted by name
+		return f.Name() < name
+	})
+	return found
+}
